@@ -206,7 +206,7 @@ def run(chk):
     for cls in cf.SHIPPED:
         for d in cf.valid_dims(cls):
             for opts in cf.opt_grid(cls, d, tier):
-                for ls, rs in ([(0.5, None), (2.0, 2.0)] if tier != "quick" else [(0.5, None) if (d + len(cases)) % 2 else (2.0, 2.0)]):
+                for ls, rs in ([(0.5, None), (3.0, 2.0)] if tier != "quick" else [(0.5, None) if (d + len(cases)) % 2 else (3.0, 2.0)]):  # (never len_scale == rescale: a rescaled length of 1 hides scale mistakes)
                     cases.append({"cls": cls, "dim": d, "opts": opts, "len_scale": ls, "rescale": rs})
     chk.run("density", case_density, cases, rule="17 classes x dim 1-3 x optional-argument grid (both bounds) x (len_scale, rescale) x wave numbers k l in {0, 1e-9, .1, .5, 1, 2, 5, 10, 30 (, 100, 1000 analytic)} x probabilities {1e-6 .. 1-1e-6}: density vs independent radial Fourier transform and Gaussian-window Parseval identity, pdf / cdf / ppf relations", max_skip_frac=0.4, chunk=2)
     hc = [{"cls": cls, "opts": cf.opt_grid(cls, max(d0, d1), "quick")[-1] if cls not in ("JBessel",) else {"nu": 3.0}, "d0": d0, "d1": d1} for cls in cf.SHIPPED for d0 in cf.valid_dims(cls) for d1 in cf.valid_dims(cls) if d0 != d1]
